@@ -63,6 +63,10 @@ def task(call_no, i, fails):
     return (call_no, i)
 
 
+class BackendRefusal(Exception):
+    """raised by the scripted backend's submit(): the backend refuses the batch (a broken executor)"""
+
+
 class Gate:
     """A thread parks here until the driver releases it with a token."""
 
@@ -179,6 +183,12 @@ class VerifBackend(ParallelBackendBase):
                              "call_no": func.items[0][1][0] if func.items else None, "started": False})
         if self.submit_hook:
             self.submit_hook(len(self.batches) - 1)
+        if getattr(self, "refuse_next", False) and threading.get_ident() == self.caller_ident:
+            # the batch was registered by Parallel and handed over: the backend refuses it
+            self.refuse_next = False
+            self.batches[-1]["started"] = True        # no completion will ever come for it
+            self.batches[-1]["refused"] = True
+            raise BackendRefusal(len(self.batches) - 1)
         return object()
 
     def retrieve_result_callback(self, out):
@@ -346,6 +356,8 @@ class Driver:
 
     @staticmethod
     def _exc_obs(e):
+        if isinstance(e, BackendRefusal):
+            return ["raised", "backend", 0]
         if isinstance(e, TaskFail):
             return ["raised", "task", e.args[0]]
         if isinstance(e, IterFail):
@@ -495,6 +507,8 @@ class Driver:
             self.anomalies.append("replay: dispatch event but the caller is not at its scheduling point")
             self._record(ev)
             return
+        if ev[0] == "refuse":
+            self.backend.refuse_next = True
         GATE.release(self.consumer.ident, ev[1])
         time.sleep(0)  # let it run
         # wait until it left the gate and reached the next point
@@ -507,6 +521,7 @@ class Driver:
         r = self._wait_consumer(WAIT_STEP)
         if r == "timeout":
             self.anomalies.append("caller did not reach a scheduling point after dispatch")
+        self.backend.refuse_next = False
         self._record(ev)
 
     def ev_fetched(self, tid):
@@ -742,7 +757,10 @@ class Driver:
             if k == "pull" and "pull" not in evs:
                 break
             if k == "dispatch":
-                self.ev_dispatch(["dispatch", self.rng.choice(bsizes)])
+                if self.rng.random() < self.case.get("p_refuse", 0.0):
+                    self.ev_dispatch(["refuse", self.rng.choice(bsizes)])
+                else:
+                    self.ev_dispatch(["dispatch", self.rng.choice(bsizes)])
             elif k == "cb":
                 tid = self.rng.choice(infl) if self.rng.random() < 0.5 else infl[0]
                 if timeout_case and self.rng.random() < 0.7:
@@ -779,7 +797,7 @@ class Driver:
                     self.ev_call(ev)
                 elif k == "call2":
                     self.ev_call2(ev)
-                elif k == "dispatch":
+                elif k in ("dispatch", "refuse"):
                     self.ev_dispatch(ev)
                 elif k in ("cb", "cbfetch"):
                     self.ev_cb(ev)
